@@ -48,7 +48,7 @@ def number(draw, positive=True, allow_zero=False):
 
 
 @st.composite
-def ballot(draw, cands, rankings_pool):
+def ballot(draw, cands, rankings_pool, scores_pool):
     shape = draw(st.sampled_from(["r", "r", "s", "rs", "rs", "none"]))
     b = {}
     if "r" in shape:
@@ -63,6 +63,11 @@ def ballot(draw, cands, rankings_pool):
         if draw(st.integers(0, 3)) == 0:
             # small values so equal score dicts recur
             sc = {k: draw(st.integers(0, 2)) for k in keys}
+        if scores_pool and draw(st.integers(0, 2)) == 0:
+            # the same scores as an earlier ballot, written in another key order
+            prev = draw(st.sampled_from(scores_pool))
+            sc = {k: prev[k] for k in draw(st.permutations(sorted(prev)))}
+        scores_pool.append(sc)
         b["s"] = sc
     b["w"] = draw(number())
     if draw(st.integers(0, 5)) == 0:
@@ -75,11 +80,18 @@ def ballot(draw, cands, rankings_pool):
 @st.composite
 def case(draw):
     cands = draw(S.cand_names(1, 4))
-    pool = []
-    A = draw(st.lists(ballot(cands, pool), min_size=1, max_size=7))
-    rel = draw(st.sampled_from(["perm", "split", "weight", "scores", "free", "perm"]))
+    pool, spool = [], []
+    A = draw(st.lists(ballot(cands, pool, spool), min_size=1, max_size=7))
+    rel = draw(st.sampled_from(["perm", "split", "weight", "scores", "free", "reorder_scores"]))
     if rel == "perm":
         B = list(draw(st.permutations(A)))
+    elif rel == "reorder_scores":
+        B = []
+        for b in draw(st.permutations(A)):
+            nb = dict(b)
+            if b.get("s"):
+                nb["s"] = {k: b["s"][k] for k in reversed(list(b["s"]))}
+            B.append(nb)
     elif rel == "split":
         B = []
         for b in draw(st.permutations(A)):
@@ -107,7 +119,7 @@ def case(draw):
         else:
             B[i]["s"] = {cands[0]: 1}
     else:
-        B = draw(st.lists(ballot(cands, pool), min_size=1, max_size=5))
+        B = draw(st.lists(ballot(cands, pool, spool), min_size=1, max_size=5))
     give_cands = draw(st.booleans())
     return {"cands": cands if give_cands else None, "A": A, "B": B, "rel": rel}
 
